@@ -13,6 +13,7 @@ import decimal
 import fractions
 import math
 import numbers
+import os
 import re
 
 ID = "C11"
@@ -166,6 +167,7 @@ def plan(tier, seed):
         [{"kind": "attrs", "shard": i, "of": n, "extra": 0 if tier == "quick" else 2000} for i in range(n)]
         + [{"kind": "enums"}, {"kind": "suite"}]
         + [{"kind": "api_lexical", "shard": i, "of": 4, "per_row": 2 if tier == "quick" else 12} for i in range(4)]
+        + [{"kind": "corpus_lexical", "shard": i, "of": 8, "orders": 1 if tier == "quick" else 4} for i in range(8)]
         + [{"kind": "corpus", "shard": i, "of": 4} for i in range(4)]
         + [{"kind": "online", "n": 30 if tier == "quick" else 500, "shard": i} for i in range(4 if tier == "quick" else 16)]
     )
@@ -573,6 +575,8 @@ def run_unit(unit, tier, seed, acc):
         return run_corpus(unit, acc)
     if unit["kind"] == "api_lexical":
         return run_api_lexical(unit, seed, acc)
+    if unit["kind"] == "corpus_lexical":
+        return run_corpus_lexical(unit, seed, acc)
     if unit["kind"] == "online":
         from vlib import histories
 
@@ -729,6 +733,104 @@ def run_api_lexical(unit, seed, acc):
                             {"api_lexical": row.id, "value": c09.enc(v), "alt": alt, "seed": seed},
                         )
             acc.case(desc=("api_lexical", row.id, k), nontrivial=bool(wrote), cls="api-reader")
+
+
+def respell_numbers(prs, rnd, share=0.6):
+    """Every whole-number attribute (type decided by the schema: the padded spelling is valid, a letter in front is not) of the
+    deck's slide-like and chart parts re-spelt with leading zeros, booleans as the other word: the same document for any reader
+    that reads numbers.  -> number of attributes re-spelt."""
+    from lxml import etree
+    from vlib import instgen, xsdkit
+
+    m, n = xsdkit.model(), 0
+    numeric = {}
+    for part in prs.part.package.iter_parts():
+        root = getattr(part, "_element", None)
+        if root is None or etree.QName(root).namespace not in (xsdkit.NS["p"], xsdkit.NS["c"]):
+            continue
+        for el in root.iter():
+            if not isinstance(el.tag, str) or not el.attrib:
+                continue
+            tname = instgen.declared_type(el)
+            if tname is None:
+                continue
+            try:
+                decl = m.attributes(tname)
+            except Exception:  # noqa
+                continue
+            for a, tx in list(el.attrib.items()):
+                typ = decl.get(a, (None,))[0]
+                if typ is None or rnd.random() > share:
+                    continue
+                if re.fullmatch(r"-?[0-9]+", tx):
+                    alt = ("-00" + tx[1:]) if tx.startswith("-") else "00" + tx
+                    k = (typ, len(tx) > 6)
+                    if k not in numeric:
+                        try:
+                            numeric[k] = xsdkit.type_valid(typ, alt)[0] and not xsdkit.type_valid(typ, "x" + tx)[0]
+                        except LookupError:
+                            numeric[k] = False
+                    if numeric[k] and xsdkit.type_valid(typ, alt)[0]:
+                        el.set(a, alt)
+                        n += 1
+                elif tx in ("true", "false") and typ.endswith("}boolean"):
+                    el.set(a, {"true": "1", "false": "0"}[tx])
+                    n += 1
+    return n
+
+
+def run_corpus_lexical(unit, seed, acc):
+    """'Every schema-valid lexical form met in a document can be read', over everything the read-only traversal of C12 reads on
+    every corpus deck: the deck as it is and the deck with its whole numbers zero-padded must read alike, accessor by accessor."""
+    import io
+
+    import pptx
+    from props import c12
+    from vlib import env
+
+    decks = env.corpus_decks()
+    for i, path in enumerate(decks):
+        if i % unit["of"] != unit["shard"]:
+            continue
+        data = open(path, "rb").read()
+        label = os.path.basename(path)
+        for o in range(unit["orders"]):
+            recs, raised = [], []
+            for variant in (False, True):
+                prs = pptx.Presentation(io.BytesIO(data))
+                if variant:
+                    n = respell_numbers(prs, env.rng("C11respell", label, seed, o))
+                    acc.count("corpus_lexical:attributes_respelt", n)
+                c12.RECORD = []
+                try:
+                    c12.traverse(prs, env.rng("C11trav", label, seed, o), ("basic", "format"))
+                    raised.append(None)
+                except Exception as e:  # noqa
+                    raised.append(type(e).__name__)
+                finally:
+                    recs.append(c12.RECORD)
+                    c12.RECORD = None
+            if raised[0] is not None:
+                acc.count("corpus_lexical:deck_not_traversable_as_it_is:%s" % raised[0])
+                if raised[1] is None:
+                    continue
+            elif raised[1] is not None:
+                acc.violation("api-reader-lexical-variant:traversal-raises:%s" % raised[1], "%s: the traversal completes on the deck as it is and raises %s after reading #%d when its whole numbers are zero-padded" % (label, raised[1], len(recs[1])), {"corpus_lexical": os.path.relpath(path, env.REPO), "order": o, "seed": seed})
+                continue
+            a, b = recs
+            acc.count("corpus_lexical:readings_compared", min(len(a), len(b)))
+            acc.case(desc=("corpus_lexical", label, o), nontrivial=len(a) > 30, cls="corpus-reader")
+            for k, (x, y) in enumerate(zip(a, b)):
+                if x != y:
+                    acc.violation(
+                        "api-reader-lexical-variant:%s" % x[0],
+                        "%s: reading #%d, %s, is %s on the deck as it is and %s (%s) when its whole numbers are zero-padded" % (label, k, x[0], x[1], y[1], y[0]),
+                        {"corpus_lexical": os.path.relpath(path, env.REPO), "order": o, "seed": seed},
+                    )
+                    break
+            else:
+                if len(a) != len(b):
+                    acc.violation("api-reader-lexical-variant:traversal-length", "%s: %d readings on the deck as it is, %d with zero-padded numbers" % (label, len(a), len(b)), {"corpus_lexical": os.path.relpath(path, env.REPO), "order": o, "seed": seed})
 
 
 def run_corpus(unit, acc):
